@@ -64,7 +64,24 @@ let check_line (line : string) : unit =
             let (s1, out) = mstep bad !st o in
             st := s1;
             let m = out_str out in
-            let r = try List.nth reals i with _ -> "?" in
+            let r_full = try List.nth reals i with _ -> "?" in
+            (* "l<items>#n1=..#s1=.." : the part behind '#' are further observations of the same iteration (iterator protocol) *)
+            let r, extras = (match String.index_opt r_full '#' with
+                | Some j -> (String.sub r_full 0 j, split_on '#' (String.sub r_full (j + 1) (String.length r_full - j - 1)))
+                | None -> (r_full, [])) in
+            (if extras <> [] && String.length r > 0 && r.[0] = 'l' then begin
+               let tags = if r = "l-" then [] else List.map (fun it -> match split_on '/' it with [_; b; _] -> b | _ -> "?") (split_on ',' (String.sub r 1 (String.length r - 1))) in
+               let nth k = (try List.nth tags k with _ -> "-") in
+               let rec drop k l = if k = 0 then l else (match l with [] -> [] | _ :: t -> drop (k - 1) t) in
+               let rec every2 l = (match l with [] -> [] | x :: t -> x :: every2 (drop 1 t)) in
+               let show l = if l = [] then "-" else String.concat "." l in
+               List.iter (fun e -> match split_on '=' e with
+                   | ["n1"; v] -> if v <> nth 1 then (incr n_oracle; Printf.printf "O iter_protocol L%d\t%s\n" i case)
+                   | ["n2"; v] -> if v <> nth 2 then (incr n_oracle; Printf.printf "O iter_protocol L%d\t%s\n" i case)
+                   | ["s1"; v] -> if v <> show (drop 1 tags) then (incr n_oracle; Printf.printf "O iter_protocol L%d\t%s\n" i case)
+                   | ["st"; v] -> if v <> show (every2 tags) then (incr n_oracle; Printf.printf "O iter_protocol L%d\t%s\n" i case)
+                   | _ -> (incr n_oracle; Printf.printf "O iter_protocol L%d\t%s\n" i case)) extras
+             end);
             bump ("outcome:" ^ (if String.length m > 0 then String.sub m 0 1 else "?") ^ (if String.length m > 1 && m.[0] = 'p' then String.sub m 1 1 else ""));
             if m <> r then begin disagree "outcome" i m r; stop := true end;
             (* ---- oracles on the REAL outcome, from the history alone ---- *)
